@@ -64,9 +64,10 @@ type RigCfg struct {
 	RTCPWErrAt  int         `json:"rtcp_werr_at"` // the n-th RTCP write fails (0: never)
 	Reuse       bool        `json:"reuse"`        // callers reuse + scribble buffers (C13 variant B forces it)
 	DrainMs     int         `json:"drain_ms"`
-	Writers2    bool        `json:"writers2"`      // two writer goroutines per local stream / two readers per remote stream
-	WriterLast  bool        `json:"writer_last"`   // BindRTCPWriter is called after the streams are bound
-	RTCPStallUs int64       `json:"rtcp_stall_us"` // the RTCP writer takes this long per call
+	Writers2    bool        `json:"writers2"`            // two writer goroutines per local stream / two readers per remote stream
+	WriterLast  bool        `json:"writer_last"`         // BindRTCPWriter is called after the streams are bound
+	RTCPStallUs int64       `json:"rtcp_stall_us"`       // the RTCP writer takes this long per call
+	StrictFB    bool        `json:"strict_fb,omitempty"` // congestion feedback never declares more received packets than it carries deltas for
 }
 
 type RigOp struct {
@@ -166,7 +167,6 @@ type Rig struct {
 	reboundR    []int
 	soak        bool     // long runs: pacers get rates far above the offered load
 	LiveAtClose []string // library goroutines still alive when Close returned
-	wake        map[int]int
 	BuildErr    error
 	scribble    bool
 }
@@ -290,7 +290,14 @@ func (rg *Rig) buildKind(kind string, seed int64) (interceptor.Factory, error) {
 		if err != nil {
 			return nil, err
 		}
-		f.OnNewPeerConnection(func(_ string, est cc.BandwidthEstimator) { rg.estimators = append(rg.estimators, est) })
+		f.OnNewPeerConnection(func(_ string, est cc.BandwidthEstimator) {
+			rg.estimators = append(rg.estimators, est)
+			// an application's change callback naturally asks the estimator
+			est.OnTargetBitrateChange(func(int) {
+				est.GetTargetBitrate()
+				est.GetStats()
+			})
+		})
 		return f, nil
 	case "pacing":
 		rate := pick(r, 500_000, 5_000_000, 100_000_000)
@@ -342,15 +349,17 @@ func (rg *Rig) Build(extra func(i int) interceptor.Factory) bool {
 	return true
 }
 
+//go:norace
+func rigMark(g *simrt.G, step int) { g.Mark = step }
+
 func newRig(e *Env, cfg RigCfg, ops []RigOp) *Rig {
-	wake := map[int]int{}
 	e.S.OnRelease = func(g *simrt.G, woke bool) {
 		// (a stall injected inside a harness writer is not a new iteration)
 		if woke && !g.App && g.Where() != "sleep" {
-			wake[g.ID] = e.S.Step()
+			rigMark(g, e.S.Step())
 		}
 	}
-	return &Rig{wake: wake, e: e, cfg: cfg, ops: ops, unboundL: make([]int, len(cfg.Local)), unboundR: make([]int, len(cfg.Remote)), reboundL: make([]int, len(cfg.Local)), reboundR: make([]int, len(cfg.Remote))}
+	return &Rig{e: e, cfg: cfg, ops: ops, unboundL: make([]int, len(cfg.Local)), unboundR: make([]int, len(cfg.Remote)), reboundL: make([]int, len(cfg.Local)), reboundR: make([]int, len(cfg.Remote))}
 }
 
 //go:norace
@@ -362,7 +371,9 @@ func (rg *Rig) logOut(o *rigOut) {
 //go:norace
 func (rg *Rig) logRTCP(o *rigRTCPOut) bool {
 	o.step, o.at = rg.e.S.Step(), rg.e.S.Now()
-	o.iter = rg.wake[o.gid]
+	if g := simrt.Cur(); g != nil {
+		o.iter = g.Mark
+	}
 	rg.rtcpN++
 	if rg.cfg.RTCPWErrAt > 0 && rg.rtcpN == rg.cfg.RTCPWErrAt {
 		o.err = true
@@ -595,14 +606,14 @@ func (rg *Rig) rtcpFor(o RigOp) []byte {
 				}
 			}
 		}
-		return encodeTWCC(7, lssrc(), uint16(r.Intn(300)), uint32(r.Intn(1<<20)), uint8(r.Intn(256)), syms, r, chance(r, 100))
+		return encodeTWCC(7, lssrc(), uint16(r.Intn(pick(r, 10, 300))), uint32(r.Intn(1<<20)), uint8(r.Intn(256)), syms, r, chance(r, 100) && !rg.cfg.StrictFB)
 	case "ccfb":
 		var blocks []ccfbIn
 		for k := 1 + r.Intn(2); k > 0; k-- {
 			b := ccfbIn{SSRC: lssrc(), Begin: uint16(r.Intn(65536))}
 			for _, st := range rg.cfg.Local {
 				if st.SSRC == b.SSRC {
-					b.Begin = st.Seq0 + uint16(r.Intn(100))
+					b.Begin = st.Seq0 + uint16(r.Intn(pick(r, 5, 100)))
 				}
 			}
 			for i := r.Intn(30); i > 0; i-- {
